@@ -42,6 +42,8 @@ class K:
     a: int = 0
     b: str
     def __init__(self, x: int, y: str = "a"): ...
+    @property
+    def p(self) -> bytes: ...
 '''
 SIG_ANN = {"x": "int", "y": "str"}
 SIG_DEFAULT = {"y": "'a'"}
@@ -560,9 +562,42 @@ def run_case(env, acc, case):
             acc.violation(f"roundtrip/{style}/{k}/{field}/{'followed-by-' + ('section' if nxt != 'end' else 'end')}/{optn}", f"{style} {k}: parsed {gd!r}, written {ed!r}", case_d, {"got": gd, "expected": ed}, size=len(text))
 
 
+def _run_property_summary(env, acc):
+    """Google, option returns_type_in_property_summary, on a property: `<type>: <summary>` documents the returned type; the rest is the free text."""
+    g = env["griffe"]
+    prop = env["mod"]["K.p"]
+    for ann in ("int", "list[int]", "dict[str, int]", None):
+        for body in ([["Summary of the property."]], [["Summary of the property."], ["Longer text."]], [["Summary of the property.", "second line."]]):
+            for tail in (None, "Raises:\n    ValueError: Desc one."):
+                for lead in ("", "\n"):
+                    written = "\n\n".join("\n".join(p) for p in body)
+                    text = lead + (f"{ann}: " if ann else "") + written + (f"\n\n{tail}" if tail else "")
+                    case_d = {"style": "google", "family": "property-summary", "text": text}
+                    ds = g.Docstring(text, lineno=1, parent=prop)
+                    try:
+                        got = _norm(ds.parse("google", returns_type_in_property_summary=True), env["enc"])
+                    except Exception as e:  # noqa: BLE001
+                        acc.violation(f"raise/google/{type(e).__name__}/property-summary", f"google parser raised {e!r}", case_d, None, size=len(text))
+                        continue
+                    exp = [{"kind": "text", "value": written}]
+                    if tail:
+                        exp.append({"kind": "raises", "value": [{"annotation": "ValueError", "description": "Desc one."}]})
+                    if ann:
+                        exp.append({"kind": "returns", "value": [{"name": "", "annotation": ann, "description": ""}]})
+                    ok = got == exp
+                    acc.case(case_d, outcome=f"google:{'ok' if ok else 'diff'}", nontrivial=True)
+                    acc.observe(got)
+                    if not ok:
+                        which = next((e["kind"] for e, g2 in zip(exp, got + [{}] * len(exp)) if e != g2), "sections")
+                        acc.violation(f"roundtrip/google/property-summary/{which}/{'typed' if ann else 'untyped'}", f"google, returns_type_in_property_summary: parsed {got!r}, written {exp!r}", case_d,
+                                      {"got": got, "expected": exp}, size=len(text))
+
+
 def run_shard(shard, tier):
     env = _setup()
     acc = Acc()
+    if shard == 0:
+        _run_property_summary(env, acc)
     for idx, case in enumerate(cases(tier)):
         if idx % NSHARDS != shard:
             continue
@@ -573,5 +608,8 @@ def run_shard(shard, tier):
 def replay(case):
     env = _setup()
     acc = Acc()
+    if case.get("family") == "property-summary":
+        _run_property_summary(env, acc)
+        return [(k, v["summary"], v["detail"]) for k, v in acc.violations.items()]
     run_case(env, acc, (case["style"], tuple(case["sections"]), case["summary"], case["variant"]))
     return [(k, v["summary"], v["detail"]) for k, v in acc.violations.items()]
